@@ -12,13 +12,16 @@ domain from the inputs (no emg3d helper is called for that) and then checks
 every postcondition of the property statement on the returned origin/widths,
 or that the documented error was raised.
 """
+import contextlib
+import copy
+import io
 import warnings
 
 import numpy as np
 from hypothesis import strategies as st
 from scipy.constants import mu_0
 
-from vp import gen
+from vp import gen, simgen
 from vp.framework import HarnessError, Violation
 
 RULE = ("Inputs are built from dimensionless draws (domain extents, vector "
@@ -72,8 +75,25 @@ DIRS = 'xyz'
 NO_GRID = "No suitable grid found"
 SEA_WARN = "Seasurface is not at an actual boundary"
 
+# cell_numbers documented as the default of construct_mesh
+DEFAULT_CELLS = [16, 24, 32, 40, 48, 64, 80, 96, 128, 160, 192, 256, 320, 384,
+                 512, 640, 768, 1024]
+
+# switches of the oracles / generator branches added after the first audit
+# (all measured quiet on the unchanged tree; set one to False to disable it
+# if it ever turns out to demand more than emg3d promises)
+ENABLE_S0_IN_DOMAIN = True      # 4b: stretching[0] inside the survey domain
+ENABLE_CENTER_WITH_SEA = True   # 5: centre = node with sea + centre on edge
+ENABLE_VECTOR_EXACT = True      # 6b: no foreign node inside the vector span
+ENABLE_SEA_FIT = True           # 7b: designed-to-fit sea surface is a node
+ENABLE_IMMUTABLE = True         # inputs unchanged by the call; same result
+#                                 when called again with the same objects
+
 # designed-feasible bookkeeping (per process)
 _FEAS = {'designed': 0, 'mesh': 0}
+# sea-surface bookkeeping (per process): how often the sea surface became a
+# node (a run in which it hardly ever does exercises only the warning)
+_SEA = {'cases': 0, 'node': 0, 'fit_designed': 0}
 
 
 # ======================================================================
@@ -98,6 +118,9 @@ COMMON = st.fixed_dictionaries({
     'lf': st.one_of(st.none(), gen.lgfloat(0.05, 2), gen.lgfloat(0.05, 2)),
     'mb': st.one_of(st.none(), gen.lgfloat(0.05, 5), gen.lgfloat(0.05, 5)),
     'lfc': W((False, 7), (True, 3)),
+    # mapping passed as a Map instance (documented {str, Map}) instead of
+    # its name
+    'mapping_obj': W((False, 3), (True, 1)),
 })
 
 VEC = st.fixed_dictionaries({
@@ -117,13 +140,19 @@ VEC = st.fixed_dictionaries({
 
 SEA = st.fixed_dictionaries({
     'k': st.one_of(gen.lgfloat(0.2, 60), st.floats(0.5, 5.0)),
-    'snap': W(('none', 2), ('int', 1), ('half', 1)),
+    # 'int+': whole number of minimum widths (>= 2) plus 0.02: with the centre
+    # on an edge and no user vector the sea surface can be fitted (7b)
+    'snap': W(('none', 2), ('int', 1), ('half', 1), ('int+', 3)),
     'ref': W(('center', 2), ('vtop', 1)),
 })
 
 DIR = st.fixed_dictionaries({
     'center': st.one_of(st.just(0.0), st.floats(-5000, 5000),
                         st.floats(-5000, 5000)),
+    # UTM-like horizontal coordinates (used for x/y of construct_mesh and
+    # for origin_and_widths without sea surface)
+    'utm': W((False, 4), (True, 1)),
+    'ucenter': st.floats(3e5, 7e6),
     'pps': st.one_of(st.none(), st.sampled_from([1, 2, 3, 5, 10]),
                      st.floats(1, 10)),
     'lim': st.fixed_dictionaries({
@@ -144,7 +173,10 @@ DIR = st.fixed_dictionaries({
 
 CELLS = st.fixed_dictionaries({
     'kind': W(('good_window', 6), ('good_full', 2), ('infeasible', 1),
-              ('ints', 3)),
+              ('ints', 3), ('default', 2)),
+    # order in which the list is handed over (documented: "list of possible
+    # numbers of cells"; nothing asks for a sorted or duplicate-free list)
+    'order': W(('sorted', 3), ('reversed', 1), ('dup', 1)),
     'max_lowest': st.sampled_from([2, 3, 5, 5, 7]),
     'min_div': st.sampled_from([1, 2, 3, 3]),
     'lo': st.sampled_from([0.5, 0.9, 1.0, 1.2, 1.3, 1.5]),
@@ -161,6 +193,12 @@ OAW_SPEC = st.fixed_dictionaries({
     'container': st.sampled_from(['list', 'tuple', 'array']),
     'invalid': W((None, 16), ('sea_below', 1), ('sea_equal', 1),
                  ('no_domain', 1), (None, 16)),
+    # call a second time with the very same argument objects
+    'twice': W((False, 3), (True, 1)),
+    # force the designed-to-fit sea-surface layout (check_dir 7b)
+    'sea_design': W((False, 5), (True, 1)),
+    'verb': W((0, 4), (-1, 1), (1, 1)),
+    'raise_error': W((True, 4), (False, 1)),
 })
 
 FMT = st.sampled_from(['tuple', 'dict', 'same'])
@@ -183,6 +221,15 @@ CM_SPEC = st.fixed_dictionaries({
         'domain': FMT, 'distance': FMT, 'vector': FMT, 'stretching': FMT,
         'min_width_limits': FMT, 'min_width_pps': FMT,
         'center_on_edge': FMT}),
+    # container of the [min, max] leaves of domain / distance / stretching /
+    # min_width_limits, of center and of the property list
+    'leaf': st.sampled_from(['list', 'tuple', 'array']),
+    'center_as': st.sampled_from(['tuple', 'list', 'array']),
+    'props_as': st.sampled_from(['list', 'tuple', 'array']),
+    'twice': W((False, 4), (True, 1)),
+    'invalid': W((None, 20), ('sea_below', 1), ('sea_equal', 1),
+                 ('no_domain_y', 1), (None, 20)),
+    'sea_design': W((False, 4), (True, 1)),
 })
 
 
@@ -346,13 +393,42 @@ def check_dir(E, x0, hx, sea_warned, tag=''):
             raise V(f"stretching_exceeded:{seamode}:{vecmode}",
                     f"widths {hx[i]} | {hx[i+1]} (ratio {rat[i]}) at "
                     f"x={nodes[i+1]}; permitted {s}, bound {bound}")
+    # 4b. documented split of the stretching pair: "the first value is the
+    # maximum stretching for the survey domain".  Two cells whose common
+    # node lies strictly inside the survey domain are both survey-domain
+    # cells (the cell crossing the domain boundary included); with a sea
+    # surface the documented 10 % / 25 % allowance applies to them.
+    if hx.size > 1 and ENABLE_S0_IN_DOMAIN:
+        s0 = float(E['stretching'][0])
+        b0 = s0
+        if E['seasurface'] is not None:
+            created = D['tv'] is not None or E['coe'] is not False
+            b0 = s0*(1.25 if created else 1.1)
+        inner = nodes[1:-1]
+        ins = np.array([(x > D['dom'][0]+tolx(x)) and (x < D['dom'][1]-tolx(x))
+                        for x in inner], bool)
+        sel = check & ins
+        if sel.any() and rat[sel].max() > b0*(1+1e-9):
+            i = int(np.argmax(np.where(sel, rat, 0)))
+            raise V(f"stretching_exceeded_in_survey_domain:{seamode}:"
+                    f"{vecmode}",
+                    f"widths {hx[i]} | {hx[i+1]} (ratio {rat[i]}) at "
+                    f"x={nodes[i+1]} inside the survey domain {D['dom']}; "
+                    f"stretching {E['stretching']}, bound {b0}")
     # 5. centre ----------------------------------------------------------
-    if D['tv'] is None and E['seasurface'] is None:
+    # Not decided with a retained user vector (it overrules the centre) and
+    # for a sea surface with center_on_edge=False (the centre cell may be
+    # moved / resized to reach the sea surface).  With a sea surface and the
+    # centre on an edge the three centre nodes are "a vector" in the sense
+    # of the _seasurface contract (widths stay untouched): centre = node.
+    sea_moves_center = E['seasurface'] is not None and (
+        E['coe'] is False or not ENABLE_CENTER_WITH_SEA)
+    if D['tv'] is None and not sea_moves_center:
         on_edge = E['coe'] is not False          # unset -> documented: edge
         if on_edge:
             d = float(_near(nodes, E['center'])[0])
             if d > tolx(E['center']):
-                raise V("center_not_on_node",
+                raise V(f"center_not_on_node{':sea' if seamode == 'sea' else ''}",
                         f"center {E['center']} is {d} from the nearest node "
                         f"(center_on_edge={E['coe']})")
         else:
@@ -371,6 +447,21 @@ def check_dir(E, x0, hx, sea_warned, tag=''):
             raise V(f"vector_node_missing:{D['src']}:{seamode}",
                     f"vector node {D['vin'][j]} (inside domain "
                     f"{D['dom_user']}) is {d[j]} from the nearest mesh node")
+        # 6b. the vector is used as it is: between its first and last node
+        # inside the domain the mesh has no other node (documented: "vectors
+        # of mesh-edges that should be used"; min width / stretching have no
+        # influence where a vector is provided)
+        vin = D['vin']
+        if ENABLE_VECTOR_EXACT and hmin > 1e3*float(tv_.max()):
+            lo_, hi_ = vin[0]-tv_[0], vin[-1]+tv_[-1]
+            got = nodes[(nodes >= lo_) & (nodes <= hi_)]
+            if got.size != vin.size:
+                extra = [float(x) for x in got
+                         if _near(vin, x)[0] > tolx(x)][:3]
+                raise V(f"vector_span_has_other_nodes:{D['src']}:{seamode}",
+                        f"{got.size} mesh nodes between the vector nodes "
+                        f"{vin[0]} and {vin[-1]} (the vector has {vin.size} "
+                        f"there); extra nodes e.g. {extra}")
     # 7. sea surface -----------------------------------------------------
     if E['seasurface'] is not None:
         # the code's own test is isclose(0, d): 1e-8 m absolute; the
@@ -381,6 +472,22 @@ def check_dir(E, x0, hx, sea_warned, tag=''):
             raise V(f"seasurface_not_node_no_warning:{vecmode}",
                     f"sea surface {E['seasurface']} is {d} from the nearest "
                     f"node and no warning was raised")
+        # 7b. designed-to-fit inputs (build_dir, snap 'int+'): the gap from
+        # the centre block to the sea surface is (n + 0.02) minimum widths,
+        # n >= 1, which n cells fill with a stretching < 1.03 (permitted:
+        # min(1.25 stretching[0], stretching[1]) >= 1.05).  The docstring
+        # promises the fit ("will try to ensure ..."; failure only "if the
+        # seasurface is too close to the center"), whatever the warning says
+        # (the warning test of the code is absolute, 1e-8 m; the demand here
+        # is 1e-6 minimum widths).
+        if E.get('sea_fit') and ENABLE_SEA_FIT and \
+                d > tsea + 1e-6*float(D['dmin']):
+            raise V("seasurface_fit_missed",
+                    f"sea surface {E['seasurface']} = center + "
+                    f"{(E['seasurface']-E['center'])/D['dmin']:.4f} minimum "
+                    f"widths is {d} from the nearest node (warning raised: "
+                    f"{sea_warned}) although whole cells fit with "
+                    f"stretching < 1.03; stretching {E['stretching']}")
         return D, ('sea=node' if d <= tsea else 'sea=warned')
     return D, 'sea=none'
 
@@ -437,7 +544,7 @@ def _vector(v, c, dmin):
     return (c-pos) + cum
 
 
-def build_dir(d, common, props3, opts, with_sea=True):
+def build_dir(d, common, props3, opts, with_sea=True, utm_ok=False):
     """Effective per-direction inputs E from a DIR spec.  `opts` holds the
     already resolved per-direction options (pps, limits, stretching, coe)."""
     f = -common['f'] if common['laplace'] else common['f']
@@ -448,6 +555,8 @@ def build_dir(d, common, props3, opts, with_sea=True):
     pps = 3 if opts['pps'] is None else opts['pps']
     dmin = own_dmin(sd[0], pps, opts['limits'])
     c = float(d['center'])
+    if utm_ok and d.get('utm') and not (with_sea and d['use_sea']):
+        c = float(d['ucenter'])
     domain = distance = vector = None
     if d['use_vec']:
         v = d['vec']
@@ -483,6 +592,8 @@ def build_dir(d, common, props3, opts, with_sea=True):
             else:
                 distance = [abs(lo), hi]
     sea = None
+    sea_fit = False
+    st_ = opts['stretching']
     if with_sea and d['use_sea']:
         s = d['sea']
         k = s['k']
@@ -490,6 +601,12 @@ def build_dir(d, common, props3, opts, with_sea=True):
             k = max(1.0, float(round(k)))
         elif s['snap'] == 'half':
             k = float(round(k)) + 0.5
+        elif s['snap'] == 'int+':
+            k = max(2.0, float(round(k))) + 0.02
+            # designed to fit (see check_dir 7b): centre block = the three
+            # nodes center-dmin, center, center+dmin; gap = (k-1) dmin
+            sea_fit = (vector is None and opts['coe'] is not False and
+                       (st_ is None or float(st_[1]) >= 1.05))
         if s['ref'] == 'vtop' and vector is not None:
             sea = float(vector[-1] + k*(vector[-1]-vector[-2]))
         else:
@@ -502,7 +619,6 @@ def build_dir(d, common, props3, opts, with_sea=True):
     lf = 1.0 if common['lf'] is None else common['lf']
     wl_ref = lf*2*np.pi*float(np.max(sd[1:]))
     mb = 100000 if common['mb'] is None else float(common['mb']*wl_ref)
-    st_ = opts['stretching']
     E = {
         'frequency': f, 'props': [float(p) for p in props3],
         'mapping': mapping, 'center': c,
@@ -516,6 +632,8 @@ def build_dir(d, common, props3, opts, with_sea=True):
         'lambda_factor': lf, 'max_buffer': mb, 'lfc': lfc,
         'coe': opts['coe'], 'cell_numbers': None,
     }
+    if sea_fit:
+        E['sea_fit'] = True
     return E
 
 
@@ -593,6 +711,11 @@ def make_cells(cs, need):
     in all of 293 feasible cases."""
     base = good_numbers(256, cs['max_lowest'], cs['min_div'])
     kind = cs['kind']
+    if kind == 'default':
+        if need <= 200:
+            # the argument is omitted; permitted = the documented default
+            return list(DEFAULT_CELLS), 'feasible'
+        kind = 'good_full'
     if kind == 'infeasible' and need >= 6:
         cells = sorted({max(1, int(need*0.5)), max(1, int(need*0.75))})
     elif need > 256:
@@ -634,9 +757,95 @@ def _contain(x, kind):
     return list(x)
 
 
+def _diff(a, b, path=''):
+    """Path of the first difference (type or value) between two argument
+    trees, or None."""
+    if type(a) is not type(b):
+        return path or '?'
+    if isinstance(a, dict):
+        if list(a) != list(b):
+            return path or '?'
+        for k in a:
+            r = _diff(a[k], b[k], f"{path}.{k}" if path else str(k))
+            if r:
+                return r
+        return None
+    if isinstance(a, (list, tuple)):
+        if len(a) != len(b):
+            return path or '?'
+        for i, (x, y) in enumerate(zip(a, b)):
+            r = _diff(x, y, f"{path}[{i}]")
+            if r:
+                return r
+        return None
+    if isinstance(a, np.ndarray):
+        ok = a.dtype == b.dtype and a.shape == b.shape and \
+            np.array_equal(a, b)
+        return None if ok else (path or '?')
+    if a is None or isinstance(a, (bool, int, float, str, np.generic)):
+        return None if a == b else (path or '?')
+    return None         # Map instance: type compared above
+
+
+def _call(fn, kw, E, tag=''):
+    """fn(**kw); the argument objects must come back unchanged (nothing
+    documents that a gridding function modifies its inputs; the Simulation
+    class calls construct_mesh repeatedly with the same objects)."""
+    kw0 = copy.deepcopy(kw)
+    exc = None
+    try:
+        out = fn(**kw)
+    except Exception as e:          # looked at by the caller
+        exc, out = e, None
+    bad = _diff(kw, kw0) if ENABLE_IMMUTABLE else None
+    if bad:
+        key = bad.split('.')[0].split('[')[0]
+        raise Violation(f"input_modified:{key}{tag}",
+                        f"argument {bad} was changed by the call",
+                        {'inputs': E, 'before': kw0, 'after': kw})
+    if exc is not None:
+        raise exc
+    return out
+
+
+def _same_mesh(a, b):
+    return (np.array_equal(np.asarray(a[0], float), np.asarray(b[0], float))
+            and len(a[1]) == len(b[1]) and all(
+                np.array_equal(x, y) for x, y in zip(a[1], b[1])))
+
+
+def _order(cells, how):
+    if how == 'reversed':
+        return list(cells[::-1])
+    if how == 'dup':
+        return list(cells[::-1]) + [cells[0]]
+    return list(cells)
+
+
+def _sea_design(d):
+    """DIR spec with the designed-to-fit sea surface: no user vector, sea
+    surface a whole number (>= 2) of minimum widths + 0.02 above the centre;
+    the caller makes center_on_edge True / unset."""
+    d = dict(d)
+    d['use_sea'], d['use_vec'] = True, False
+    d['sea'] = dict(d['sea'], snap='int+', ref='center')
+    return d
+
+
+def _mapping_arg(common, mapping):
+    if common.get('mapping_obj', False):
+        from emg3d import maps
+        return getattr(maps, 'Map'+mapping)()
+    return mapping
+
+
 def case_oaw(spec, rec):
     from emg3d import meshes
     common, d = spec['common'], spec['dir']
+    if spec.get('sea_design', False):
+        d = _sea_design(d)
+        if d['coe'] is False:
+            d['coe'] = True
     nprop = spec['nprop']
     plist, mapping = props_list(common, nprop)
     # documented 1-D meaning: [p_minwidth, p_negative, p_positive]
@@ -646,7 +855,7 @@ def case_oaw(spec, rec):
         common['cond'][0]))/(3 if d['pps'] is None else d['pps'])
     opts = {'pps': d['pps'], 'limits': _limits(d, w0),
             'stretching': _stretching(d), 'coe': d['coe']}
-    E = build_dir(d, common, props3, opts)
+    E = build_dir(d, common, props3, opts, utm_ok=True)
     invalid = spec['invalid']
     if invalid == 'no_domain':
         E['domain'] = E['distance'] = E['vector'] = None
@@ -666,7 +875,18 @@ def case_oaw(spec, rec):
     props_arg = plist[0] if scalar else \
         _contain(plist, 'array' if cont == 'array' else 'list')
     kw = {'frequency': E['frequency'], 'properties': props_arg,
-          'center': E['center'], 'cell_numbers': _contain(cells, cont)}
+          'center': E['center']}
+    ckind = spec['cells']['kind']
+    omit_cells = ckind == 'default' and cells == DEFAULT_CELLS
+    if not omit_cells:
+        kw['cell_numbers'] = _contain(
+            _order(cells, spec['cells'].get('order', 'sorted')), cont)
+    verb = spec.get('verb', 0)
+    raise_error = spec.get('raise_error', True)
+    if verb != 0:
+        kw['verb'] = verb
+    if not raise_error:
+        kw['raise_error'] = False
     if E['domain'] is not None:
         kw['domain'] = _contain(E['domain'], cont)
     if E['distance'] is not None:
@@ -689,22 +909,30 @@ def case_oaw(spec, rec):
     if E['lfc'] or common['lfc']:
         kw['lambda_from_center'] = E['lfc']
     if common['mapping'] != 'omit':
-        kw['mapping'] = mapping
+        kw['mapping'] = _mapping_arg(common, mapping)
     if E['coe'] is not None:
         kw['center_on_edge'] = E['coe']
 
-    rec.cls(f"design={design}", f"invalid={invalid}")
-    with warnings.catch_warnings(record=True) as wlist:
+    rec.cls(f"design={design}", f"invalid={invalid}", f"verb={verb}",
+            f"raise_error={raise_error}",
+            f"mapping_as={type(kw.get('mapping')).__name__[:3]}",
+            f"center={'utm' if abs(E['center']) > 1e5 else 'local'}")
+    if 'cell_numbers' in kw:
+        rec.cls(f"cell_order={spec['cells'].get('order', 'sorted')}")
+    buf = io.StringIO()
+    with warnings.catch_warnings(record=True) as wlist, \
+            contextlib.redirect_stdout(buf):
         warnings.simplefilter('always')
         try:
-            out = meshes.origin_and_widths(**kw)
+            out = _call(meshes.origin_and_widths, kw, E)
         except RuntimeError as e:
-            if invalid is None and NO_GRID in str(e):
+            if invalid is None and NO_GRID in str(e) and raise_error:
                 rec.cls('outcome=runtime_error')
                 if design == 'feasible':
                     _FEAS['designed'] += 1
                 return
-            raise Violation(f"wrong_error:RuntimeError:invalid={invalid}",
+            raise Violation(f"wrong_error:RuntimeError:invalid={invalid}"
+                            f"{'' if raise_error else ':raise_error=False'}",
                             f"unexpected RuntimeError: {e}", {'inputs': E})
         except ValueError as e:
             if invalid == 'no_domain' and 'At least one of' in str(e):
@@ -719,16 +947,56 @@ def case_oaw(spec, rec):
         raise Violation(f"invalid_input_accepted:{invalid}",
                         "documented-invalid input returned a mesh",
                         {'inputs': E})
-    if not isinstance(out, tuple) or len(out) != 2:
-        raise Violation("bad_return", f"returned {type(out)}", {'inputs': E})
+    # documented return: (origin, widths), plus the info string if verb < 0
+    nout = 3 if verb < 0 else 2
+    if not isinstance(out, tuple) or len(out) != nout:
+        raise Violation(f"bad_return:verb={verb}",
+                        f"returned {type(out).__name__} of length "
+                        f"{len(out) if isinstance(out, tuple) else '-'}; "
+                        f"documented {nout} values for verb={verb}",
+                        {'inputs': E})
+    if verb < 0 and not isinstance(out[2], str):
+        raise Violation("bad_return:info", f"info is {type(out[2])}",
+                        {'inputs': E})
+    printed = buf.getvalue()
+    if verb <= 0 and printed.strip():
+        raise Violation(f"printed_although_silent:verb={verb}",
+                        f"verb={verb} printed {printed[:200]!r}",
+                        {'inputs': E})
+    if out[0] is None or out[1] is None:
+        # "Otherwise it just returns None's" - only without raise_error
+        if raise_error or not (out[0] is None and out[1] is None):
+            raise Violation(f"none_returned:raise_error={raise_error}",
+                            f"returned origin={out[0]!r}, widths={out[1]!r}",
+                            {'inputs': E})
+        rec.cls('outcome=none_returned')
+        if design == 'feasible':
+            _FEAS['designed'] += 1
+        return
+    if verb > 0 and not printed.strip():
+        raise Violation("verbose_prints_nothing",
+                        "verb=1 printed nothing for a returned mesh",
+                        {'inputs': E})
     msgs = [str(w.message) for w in wlist]
     warned = any(SEA_WARN in m for m in msgs)
     D, seares = check_dir(E, out[0], out[1], warned)
+    if spec.get('twice', False) and ENABLE_IMMUTABLE:
+        with warnings.catch_warnings(), contextlib.redirect_stdout(buf):
+            warnings.simplefilter('ignore')
+            out2 = _call(meshes.origin_and_widths, kw, E)
+        if not _same_mesh(([out[0]], [out[1]]), ([out2[0]], [out2[1]])):
+            raise Violation("second_call_differs",
+                            "the same call with the same argument objects "
+                            f"returned origin {out[0]!r} / {np.size(out[1])} "
+                            f"cells, then {out2[0]!r} / {np.size(out2[1])}",
+                            {'inputs': E})
+        rec.cls('twice')
+    _sea_count(E, seares)
     if design == 'feasible':
         _FEAS['designed'] += 1
         _FEAS['mesh'] += 1
     _classify(rec, E, D, d, common, seares, np.size(out[1]), cells,
-              spec['cells']['kind'])
+              ckind if (ckind != 'default' or omit_cells) else 'good_full')
     rec.cls(f"nprop={nprop}{'(float)' if scalar else ''}")
     active = [k for k, on in (('vector', E['vector'] is not None),
                               ('sea', E['seasurface'] is not None)) if on]
@@ -737,6 +1005,13 @@ def case_oaw(spec, rec):
     rec.note({'cells': int(np.size(out[1])), 'x0': float(out[0]),
               'dmin': D['dmin'], 'domain': D['dom'], 'comp': D['cd'],
               'sea': seares, 'need_est': need, 'cell_numbers': cells})
+
+
+def _sea_count(E, seares):
+    if E['seasurface'] is not None:
+        _SEA['cases'] += 1
+        _SEA['node'] += seares == 'sea=node'
+        _SEA['fit_designed'] += bool(E.get('sea_fit'))
 
 
 def _classify(rec, E, D, d, common, seares, ncell, cells, ckind, pre=''):
@@ -752,6 +1027,9 @@ def _classify(rec, E, D, d, common, seares, ncell, cells, ckind, pre=''):
             pre+f"cells={ckind}",
             pre+("ncell<=32" if ncell <= 32 else "ncell<=96" if ncell <= 96
                  else "ncell>96"))
+    if E['seasurface'] is not None:
+        rec.cls(pre+f"sea_fit_designed={bool(E.get('sea_fit'))}",
+                pre+f"sea:center_checked={D['tv'] is None and E['coe'] is not False}")
     if E['vector'] is not None:
         rec.cls(pre+f"vector:{d['vec']['dom']}:"
                 f"{'kept' if D['tv'] is not None else 'dropped'}")
@@ -780,11 +1058,14 @@ def route_properties(plist):
     raise HarnessError(f"property list of length {n}")
 
 
-def _pack(vals, fmt):
+def _pack(vals, fmt, leaf='list'):
     """Three per-direction values -> documented container, or (False, None)
-    to omit the argument."""
+    to omit the argument.  [a, b] leaves become list / tuple / ndarray."""
     if all(v is None for v in vals):
         return False, None
+    if leaf != 'list':
+        vals = [_contain(v, leaf) if isinstance(v, list) else v
+                for v in vals]
     if fmt == 'dict':
         return True, {'x': vals[0], 'y': vals[1], 'z': vals[2]}
     if fmt == 'same':
@@ -799,12 +1080,21 @@ def case_cm(spec, rec):
     fmt = dict(spec['fmt'])
     dirs = [dict(d) for d in spec['dirs']]
     same_geom = spec['same_geom']
+    invalid = spec.get('invalid')
+    if invalid == 'no_domain_y':
+        same_geom = False
     if spec.get('same_center_xy') and not same_geom:
-        dirs[1]['center'] = dirs[0]['center']
-    yx = None if same_geom else spec.get('y_extends_x')
+        for key in ('center', 'utm', 'ucenter'):
+            dirs[1][key] = dirs[0].get(key)
+    yx = None if (same_geom or invalid == 'no_domain_y') else \
+        spec.get('y_extends_x')
+    if same_geom:
+        for d in dirs:
+            d['utm'] = False        # one geometry: z decides (never UTM)
     if yx:
-        for key in ('center', 'dommode', 'cpos', 'dl', 'dr', 'vec',
-                    'use_vec'):
+        for key in ('center', 'utm', 'ucenter'):
+            dirs[1][key] = dirs[0].get(key)
+        for key in ('dommode', 'cpos', 'dl', 'dr', 'vec', 'use_vec'):
             dirs[1][key] = dirs[0][key]
         if yx == 'vector':
             dirs[0]['use_vec'] = False
@@ -814,6 +1104,9 @@ def case_cm(spec, rec):
             for key in ('center', 'dommode', 'cpos', 'dl', 'dr', 'vec',
                         'use_vec'):
                 dirs[k][key] = dirs[0][key]
+    sea_design = spec.get('sea_design', False) and not same_geom
+    if sea_design:
+        dirs[2] = _sea_design(dirs[2])
     plist, mapping = props_list(common, nprop)
     routed = route_properties(plist)
     f = -common['f'] if common['laplace'] else common['f']
@@ -831,6 +1124,10 @@ def case_cm(spec, rec):
                    [_limits(d, w) for d, w in zip(dirs, w0s)])
     sts = resolve('stretching', [_stretching(d) for d in dirs])
     coes = resolve('center_on_edge', [d['coe'] for d in dirs])
+    if sea_design and coes[2] is False:
+        coes = [coes[0], coes[1], True]
+        if fmt['center_on_edge'] == 'same':
+            fmt['center_on_edge'] = 'tuple'
     if yx:
         # y equals x in every option, except the one x leaves at None
         for name, lst, dflt in (('pps', pps, 4), ('limits', lims, None),
@@ -864,7 +1161,7 @@ def case_cm(spec, rec):
         opts = {'pps': pps[k], 'limits': lims[k], 'stretching': sts[k],
                 'coe': coes[k]}
         Es.append(build_dir(dirs[k], common, routed[k], opts,
-                            with_sea=(k == 2)))
+                            with_sea=(k == 2), utm_ok=(k < 2)))
     if same_geom:
         for k in (1, 2):
             for key in ('domain', 'distance', 'vector'):
@@ -879,25 +1176,42 @@ def case_cm(spec, rec):
     for E in Es:
         E['max_buffer'] = mb
         E['lfc'] = lfc
-    need = repair_buffer(Es)
+    # documented-invalid input in ONE direction (the others stay valid)
+    if invalid == 'no_domain_y':
+        Es[1]['domain'] = Es[1]['distance'] = Es[1]['vector'] = None
+    elif invalid in ('sea_below', 'sea_equal'):
+        dm = derive(Es[2])['dmin']
+        Es[2]['seasurface'] = Es[2]['center'] - (
+            dm if invalid == 'sea_below' else 0)
+    if invalid is None:
+        need = repair_buffer(Es)
+    else:
+        need = 8
     cells, design = make_cells(spec['cells'], need)
     for E in Es:
         E['cell_numbers'] = cells
 
     # ---- the call ------------------------------------------------------
-    props_arg = plist[0] if (nprop == 1 and spec['scalar']) else list(plist)
+    leaf = spec.get('leaf', 'list')
+    props_arg = plist[0] if (nprop == 1 and spec['scalar']) else \
+        _contain(list(plist), spec.get('props_as', 'list'))
     kw = {'frequency': f, 'properties': props_arg,
-          'center': tuple(E['center'] for E in Es),
-          'cell_numbers': list(cells)}
+          'center': _contain([E['center'] for E in Es],
+                             spec.get('center_as', 'tuple'))}
+    ckind = spec['cells']['kind']
+    omit_cells = ckind == 'default' and cells == DEFAULT_CELLS
+    if not omit_cells:
+        kw['cell_numbers'] = _order(cells,
+                                    spec['cells'].get('order', 'sorted'))
     for name, key in (('domain', 'domain'), ('distance', 'distance'),
                       ('vector', 'vector')):
-        give, val = _pack([E[key] for E in Es], fmt[name])
+        give, val = _pack([E[key] for E in Es], fmt[name], leaf)
         if give:
             kw[name] = val
-    give, val = _pack(sts, fmt['stretching'])
+    give, val = _pack(sts, fmt['stretching'], leaf)
     if give:
         kw['stretching'] = val
-    give, val = _pack(lims, fmt['min_width_limits'])
+    give, val = _pack(lims, fmt['min_width_limits'], leaf)
     if give:
         kw['min_width_limits'] = val
     give, val = _pack(pps, fmt['min_width_pps'])
@@ -915,24 +1229,41 @@ def case_cm(spec, rec):
     if lfc or common['lfc']:
         kw['lambda_from_center'] = lfc
     if common['mapping'] != 'omit':
-        kw['mapping'] = mapping
+        kw['mapping'] = _mapping_arg(common, mapping)
 
     # the checker's reading of the call (documented routing), to make sure
     # the per-direction inputs above are what the call really says
     _verify_routing(kw, Es, sts, lims, pps, coes)
 
     rec.cls(f"design={design}", f"nprop={nprop}",
-            f"same_geom={same_geom}",
+            f"same_geom={same_geom}", f"invalid={invalid}",
+            f"leaf={leaf}", f"center_as={type(kw['center']).__name__}",
+            f"props_as={type(kw['properties']).__name__}",
+            f"mapping_as={type(kw.get('mapping')).__name__[:3]}",
+            f"center_xy={'utm' if max(abs(Es[0]['center']), abs(Es[1]['center'])) > 1e5 else 'local'}",
             *[f"fmt:{k}={type(kw[k]).__name__}" for k in (
                 'domain', 'distance', 'vector', 'stretching',
                 'min_width_limits', 'min_width_pps', 'center_on_edge')
               if k in kw])
-    with warnings.catch_warnings(record=True) as wlist:
+    if 'cell_numbers' in kw:
+        rec.cls(f"cell_order={spec['cells'].get('order', 'sorted')}")
+    buf = io.StringIO()
+    with warnings.catch_warnings(record=True) as wlist, \
+            contextlib.redirect_stdout(buf):
         warnings.simplefilter('always')
         try:
-            mesh = emg3d.construct_mesh(**kw)
+            mesh = _call(emg3d.construct_mesh, kw, Es, tag='[cm]')
+        except ValueError as e:
+            if invalid == 'no_domain_y' and 'At least one of' in str(e):
+                rec.cls('outcome=value_error')
+                return
+            if invalid in ('sea_below', 'sea_equal') and \
+                    'seasurface' in str(e):
+                rec.cls('outcome=value_error')
+                return
+            raise
         except RuntimeError as e:
-            if NO_GRID in str(e):
+            if invalid is None and NO_GRID in str(e):
                 rec.cls('outcome=runtime_error')
                 if design == 'feasible':
                     _FEAS['designed'] += 1
@@ -940,6 +1271,19 @@ def case_cm(spec, rec):
             raise Violation("wrong_error:RuntimeError[cm]",
                             f"unexpected RuntimeError: {e}",
                             {'inputs': Es})
+    if invalid is not None:
+        raise Violation(f"invalid_input_accepted:{invalid}[cm]",
+                        "documented-invalid input in one direction returned "
+                        "a mesh", {'inputs': Es})
+    if buf.getvalue().strip():
+        raise Violation("printed_although_silent[cm]",
+                        f"construct_mesh printed {buf.getvalue()[:200]!r}",
+                        {'inputs': Es})
+    if not isinstance(getattr(mesh, 'construct_mesh_info', None), str):
+        # documented: "The info is added either way to the returned mesh"
+        raise Violation("no_construct_mesh_info[cm]",
+                        "mesh.construct_mesh_info is missing",
+                        {'inputs': Es})
     msgs = [str(w.message) for w in wlist]
     warned = any(SEA_WARN in m for m in msgs)
     ncs = []
@@ -948,7 +1292,20 @@ def case_cm(spec, rec):
                               warned, tag=f"[cm:{DIRS[k]}]")
         ncs.append(int(mesh.h[k].size))
         _classify(rec, Es[k], D, dirs[k], common, seares, ncs[-1], cells,
-                  spec['cells']['kind'], pre=f"{DIRS[k]}:")
+                  ckind if (ckind != 'default' or omit_cells)
+                  else 'good_full', pre=f"{DIRS[k]}:")
+    _sea_count(Es[2], seares)
+    if spec.get('twice', False) and ENABLE_IMMUTABLE:
+        with warnings.catch_warnings(), contextlib.redirect_stdout(buf):
+            warnings.simplefilter('ignore')
+            mesh2 = _call(emg3d.construct_mesh, kw, Es, tag='[cm]')
+        if not _same_mesh((mesh.origin, mesh.h), (mesh2.origin, mesh2.h)):
+            raise Violation("second_call_differs[cm]",
+                            "the same call with the same argument objects "
+                            f"returned shape {ncs}, origin {mesh.origin}, "
+                            f"then {[int(h.size) for h in mesh2.h]}, "
+                            f"{mesh2.origin}", {'inputs': Es})
+        rec.cls('twice')
     rec.cls('outcome=mesh')
     if design == 'feasible':
         _FEAS['designed'] += 1
@@ -1010,19 +1367,416 @@ def _verify_routing(kw, Es, sts, lims, pps, coes):
                     f"{DIRS[k]}: call says {a!r}, oracle uses {b!r}")
 
 
-SUBS = {'oaw': case_oaw, 'cm': case_cm}
+# ======================================================================
+# Sub-check 3: good_mg_cell_nr against its documented formula
+# ======================================================================
+def gmc_specs():
+    out = []
+    for max_nr in (1, 2, 15, 16, 17, 100, 256, 1000, 1023, 1024, 1025, 5000):
+        for max_lowest in range(2, 20):
+            for min_div in range(0, 7):
+                out.append({'max_nr': max_nr, 'max_lowest': max_lowest,
+                            'min_div': min_div, 'default': False})
+    out.append({'default': True})
+    return out
+
+
+def case_gmc(spec, rec):
+    """Documented: all numbers p 2^n <= M with p = 2, 3, ..., p_max and
+    n = n_min, n_min+1, ...; returned from lowest to highest.  (Even p > 2
+    and odd multiples add nothing new: p 2^n = (p/2) 2^(n+1).)  The default
+    is the list quoted in the construct_mesh docstring."""
+    from emg3d import meshes
+    if spec['default']:
+        got = meshes.good_mg_cell_nr()
+        exp = DEFAULT_CELLS
+        rec.cls('default')
+    else:
+        M, pm, nm = spec['max_nr'], spec['max_lowest'], spec['min_div']
+        got = meshes.good_mg_cell_nr(max_nr=M, max_lowest=pm, min_div=nm)
+        exp = set()
+        for p_ in range(2, pm+1):
+            k = p_*2**nm
+            while k <= M:
+                exp.add(k)
+                k *= 2
+        exp = sorted(exp)
+        rec.cls(f"max_lowest={'2-5' if pm <= 5 else '6-19'}",
+                'empty' if not exp else 'nonempty')
+    got = [int(k) for k in np.asarray(got).ravel()]
+    if got != list(exp):
+        only_got = sorted(set(got)-set(exp))[:5]
+        only_exp = sorted(set(exp)-set(got))[:5]
+        raise Violation(
+            "good_mg_cell_nr_differs" + (":default" if spec['default'] else ""),
+            f"good_mg_cell_nr({spec}) returned {got[:12]}..., documented "
+            f"{list(exp)[:12]}...; only returned {only_got}, missing "
+            f"{only_exp}, sorted={got == sorted(got)}", {'spec': spec})
+    if exp:
+        rec.nt(['gmc', spec])
+
+
+# ======================================================================
+# Sub-check 4: estimate_gridding_opts
+# ======================================================================
+EGO_PASS = ['seasurface', 'cell_numbers', 'lambda_factor',
+            'lambda_from_center', 'max_buffer', 'verb']
+EGO_PERDIR = ['stretching', 'min_width_limits', 'min_width_pps',
+              'center_on_edge']
+EGO_SPEC = st.fixed_dictionaries({
+    'prob': simgen.problem_spec(
+        nx=(6, 8, 10), nyz=(4, 6, 8), max_src=3, max_rec=4, max_freq=3,
+        src_kinds=['el_point', 'mag_point'], max_decades=3.0),
+    'give': st.fixed_dictionaries({k: st.booleans() for k in (
+        EGO_PASS + EGO_PERDIR + ['frequency', 'center', 'properties',
+                                 'mapping'])}),
+    'perdir3': st.fixed_dictionaries({k: st.booleans() for k in EGO_PERDIR}),
+    'fmt3': st.sampled_from(['tuple', 'list', 'dict']),
+    'dom': st.lists(W((False, 2), (True, 1)), min_size=3, max_size=3),
+    'dist': st.lists(W((False, 2), (True, 1)), min_size=3, max_size=3),
+    'vec': W(('none', 2), ('str', 1), ('arrays', 1)),
+    'vecdirs': st.lists(st.booleans(), min_size=3, max_size=3),
+    'mapping': st.sampled_from(gen.MAPPINGS),
+    'mapping_obj': st.booleans(),
+    'nprop': st.sampled_from([1, 2, 3, 4, 7]),
+    'leftover': W((False, 7), (True, 1)),
+    'seed': gen.SEED,
+})
+
+
+def _triple(v):
+    if v is None:
+        return [None, None, None]
+    if isinstance(v, dict):
+        return [v['x'], v['y'], v['z']]
+    if isinstance(v, (list, tuple)) and len(v) == 3:
+        return list(v)
+    return [v, v, v]
+
+
+def _leaf_eq(a, b):
+    if a is None or b is None:
+        return a is None and b is None
+    a, b = np.asarray(a, float), np.asarray(b, float)
+    return a.shape == b.shape and np.array_equal(a, b)
+
+
+def case_ego(spec, rec):
+    from emg3d import meshes
+    p = simgen.build(spec['prob'])
+    survey = simgen.make_survey(p)
+    grid, model = p.grid, p.model
+    rng = gen.rng_of(spec['seed'], 161)
+    nodes = [grid.nodes_x, grid.nodes_y, grid.nodes_z]
+    ext = np.array([x[-1]-x[0] for x in nodes])
+    give = spec['give']
+    fmt3 = spec['fmt3']
+
+    def three(vals):
+        if fmt3 == 'dict':
+            return {'x': vals[0], 'y': vals[1], 'z': vals[2]}
+        return tuple(vals) if fmt3 == 'tuple' else list(vals)
+
+    # ---- user-given part ---------------------------------------------
+    user = {}
+    values = {
+        'seasurface': float(nodes[2][-1] + rng.uniform(0, 1)*ext[2]),
+        'cell_numbers': [16, 32, 64, 128],
+        'lambda_factor': float(rng.uniform(0.2, 2)),
+        'lambda_from_center': bool(rng.integers(0, 2)),
+        'max_buffer': float(rng.uniform(1e3, 1e5)), 'verb': 0,
+        'frequency': float(10**rng.uniform(-2, 2)),
+        'center': tuple(float(rng.uniform(x[1], x[-2])) for x in nodes),
+        'properties': [float(v) for v in 10**rng.uniform(-1, 2,
+                                                         spec['nprop'])],
+    }
+    per = {
+        'stretching': lambda: [1.0+float(rng.uniform(0, 0.1)),
+                               1.2+float(rng.uniform(0, 0.5))],
+        'min_width_limits': lambda: [float(rng.uniform(1, 10)),
+                                     float(rng.uniform(10, 100))],
+        'min_width_pps': lambda: float(rng.integers(2, 6)),
+        'center_on_edge': lambda: bool(rng.integers(0, 2)),
+    }
+    for k in EGO_PASS + ['frequency', 'center', 'properties']:
+        v = values[k]               # always drawn: fixed stream positions
+        if give[k]:
+            user[k] = v
+    for k in EGO_PERDIR:
+        vals = [per[k]() for _ in range(3)]
+        if rng.random() < 0.3:
+            vals[int(rng.integers(0, 3))] = None
+        if give[k]:
+            user[k] = three(vals) if spec['perdir3'][k] else vals[0]
+    map_given = spec['mapping'] if give['mapping'] else None
+    if map_given is not None:
+        if spec['mapping_obj']:
+            from emg3d import maps
+            user['mapping'] = getattr(maps, 'Map'+map_given)()
+        else:
+            user['mapping'] = map_given
+    dom = [sorted(float(v) for v in rng.uniform(
+        nodes[i][0]-ext[i], nodes[i][-1]+ext[i], 2)) if spec['dom'][i]
+        else None for i in range(3)]
+    dist = [[float(v) for v in rng.uniform(0.1, 2.0, 2)*ext[i]]
+            if spec['dist'][i] else None for i in range(3)]
+    vecs = [None, None, None]
+    vdirs = list(spec['vecdirs'])
+    if spec['vec'] != 'none' and not any(vdirs):
+        vdirs[int(rng.integers(0, 3))] = True
+    for i in range(3):
+        n = int(rng.integers(3, 9))
+        v = np.sort(rng.uniform(nodes[i][0]-ext[i], nodes[i][-1]+ext[i], n))
+        if spec['vec'] == 'arrays' and vdirs[i]:
+            vecs[i] = v
+        elif spec['vec'] == 'str' and vdirs[i]:
+            vecs[i] = np.array(nodes[i])
+    if any(d is not None for d in dom):
+        user['domain'] = three(dom)
+    if any(d is not None for d in dist):
+        user['distance'] = three(dist)
+    if spec['vec'] == 'arrays':
+        user['vector'] = three(vecs)
+    elif spec['vec'] == 'str':
+        letters = ''.join(DIRS[i] for i in range(3) if vdirs[i])
+        user['vector'] = letters
+    if spec['leftover']:
+        user['min_width'] = 10.0        # not a gridding option
+    user0 = copy.deepcopy(user)
+
+    rec.cls(f"vector={spec['vec']}", f"mapping_given={map_given is not None}",
+            f"properties_given={give['properties']}",
+            f"leftover={spec['leftover']}", f"case={p.case}",
+            *[f"{DIRS[i]}:domain_from=" + (
+                'domain' if dom[i] is not None else
+                'distance' if dist[i] is not None else
+                'vector' if vecs[i] is not None else 'survey')
+              for i in range(3)])
+    try:
+        with warnings.catch_warnings():
+            warnings.simplefilter('ignore')
+            g = meshes.estimate_gridding_opts(dict(user), model, survey)
+    except TypeError as e:
+        if spec['leftover'] and 'min_width' in str(e):
+            rec.cls('outcome=type_error')
+            return
+        raise
+    if spec['leftover']:
+        raise Violation("ego:unknown_option_accepted",
+                        "gridding option 'min_width' (not an input of "
+                        "construct_mesh) was accepted silently",
+                        {'user': user0})
+
+    def V(sig, msg):
+        return Violation("ego:"+sig, msg, {'user': user0, 'returned': g})
+
+    # ---- passed-along options -----------------------------------------
+    for k in EGO_PASS:
+        if give[k]:
+            if k not in g or _diff(g[k], user0[k]):
+                raise V(f"not_passed_along:{k}",
+                        f"{k}={user0[k]!r} came back as {g.get(k)!r}")
+        elif g.get(k) is not None:
+            raise V(f"invented:{k}", f"{k} not given, returned {g[k]!r}")
+    for k in EGO_PERDIR:
+        if give[k]:
+            a, b = _triple(g.get(k)), _triple(user0[k])
+            if not all(_leaf_eq(x, y) for x, y in zip(a, b)):
+                raise V(f"not_passed_along:{k}",
+                        f"{k}={user0[k]!r} came back as {g.get(k)!r}")
+        elif g.get(k) is not None:
+            raise V(f"invented:{k}", f"{k} not given, returned {g[k]!r}")
+    # ---- mapping, frequency, centre -------------------------------------
+    mname = map_given if map_given is not None else p.mapping
+    gm = g.get('mapping')
+    gm = gm if isinstance(gm, str) else getattr(gm, 'name', None)
+    if gm != mname:
+        raise V("mapping", f"mapping {gm!r}, expected {mname!r} "
+                f"(given {map_given!r}, model {p.mapping!r})")
+    fexp = user0['frequency'] if give['frequency'] else float(
+        10**np.mean(np.log10(p.freqs)))
+    if not abs(float(g['frequency'])-fexp) <= 1e-12*abs(fexp):
+        raise V(f"frequency:given={give['frequency']}",
+                f"frequency {g['frequency']!r}, expected {fexp!r} "
+                f"(survey frequencies {p.freqs})")
+    scoord = np.array([s.center for s in p.sources], float)
+    cexp = np.array(user0['center']) if give['center'] else scoord.mean(0)
+    cgot = np.asarray(g['center'], float)
+    cscale = np.abs(np.r_[scoord.ravel(), ext]).max()
+    if cgot.shape != (3,) or np.abs(cgot-cexp).max() > 1e-12*cscale:
+        raise V(f"center:given={give['center']}",
+                f"center {g['center']!r}, expected {cexp!r} (sources at "
+                f"{scoord.tolist()})")
+    # ---- vector, distance -------------------------------------------------
+    gv = _triple(g.get('vector'))
+    gd = _triple(g.get('distance'))
+    for i in range(3):
+        if not _leaf_eq(gv[i], vecs[i]):
+            raise V(f"vector:{spec['vec']}",
+                    f"vector[{DIRS[i]}] = {gv[i]!r}, expected {vecs[i]!r}")
+        if not _leaf_eq(gd[i], dist[i]):
+            raise V("distance", f"distance[{DIRS[i]}] = {gd[i]!r}, given "
+                    f"{dist[i]!r}")
+    # ---- properties --------------------------------------------------------
+    if give['properties']:
+        if _diff(list(np.atleast_1d(g['properties'])),
+                 list(np.atleast_1d(user0['properties']))):
+            raise V("properties:given", f"properties {g['properties']!r}, "
+                    f"given {user0['properties']!r}")
+    else:
+        comps = [c for c in p.cond[:3] if c is not None]
+        slabs = [(0, slice(None), slice(None)), (-1, slice(None), slice(None)),
+                 (slice(None), 0, slice(None)), (slice(None), -1, slice(None)),
+                 (slice(None), slice(None), 0), (slice(None), slice(None), -1)]
+        cexp_ = [min(float(c[sl].min()) for c in comps) for sl in slabs]
+        pg = np.asarray(g['properties'], float)
+        if pg.shape != (7,):
+            raise V("properties:shape", f"properties {g['properties']!r}")
+        cgot_ = gen.map_backward(mname, pg)
+        names = ['xneg', 'xpos', 'yneg', 'ypos', 'zneg', 'zpos']
+        for j in range(6):
+            if not abs(cgot_[j+1]-cexp_[j]) <= 1e-9*cexp_[j]:
+                raise V(f"properties:{names[j]}",
+                        f"buffer property {names[j]} = {pg[j+1]} ({mname}; "
+                        f"conductivity {cgot_[j+1]}), lowest conductivity of "
+                        f"the outermost layer is {cexp_[j]} (all: {cexp_})")
+        lo_ = min(float(c.min()) for c in comps)
+        hi_ = max(float(c.max()) for c in comps)
+        if not (lo_*(1-1e-9) <= cgot_[0] <= hi_*(1+1e-9)):
+            raise V("properties:source",
+                    f"source property {pg[0]} (conductivity {cgot_[0]}) is "
+                    f"outside the model's range [{lo_}, {hi_}]")
+    # ---- domain ---------------------------------------------------------------
+    gdom = _triple(g.get('domain'))
+    # survey extent: all sources and all receivers (absolute positions)
+    pts = [np.asarray(s.center, float) for s in p.sources]
+    for s in p.sources:
+        for r, rel in zip(p.receivers, p.rec_relative):
+            rc = np.asarray(r.center, float)
+            pts.append(rc + np.asarray(s.center, float) if rel else rc)
+    pts = np.array(pts)
+    base, diff, src = [], [], []
+    for i in range(3):
+        if dom[i] is not None:
+            b, w = dom[i], 'domain'
+        elif dist[i] is not None:
+            b, w = [cexp[i]-dist[i][0], cexp[i]+dist[i][1]], 'distance'
+        elif vecs[i] is not None:
+            b, w = [float(vecs[i].min()), float(vecs[i].max())], 'vector'
+        else:
+            a0, a1 = float(pts[:, i].min()), float(pts[:, i].max())
+            b, w = [a0-(a1-a0)/10, a1+(a1-a0)/10], 'survey'
+        base.append([float(b[0]), float(b[1])])
+        diff.append(float(b[1]-b[0]))
+        src.append(w)
+    dscale = max(np.abs(pts).max(), max(abs(v) for b in base for v in b))
+    tol = 1e-9*dscale
+
+    def close(got, exp, slack=0.0):
+        return got is not None and np.shape(got) == (2,) and all(
+            abs(float(got[k])-exp[k]) <= slack+tol for k in (0, 1))
+    for i in range(3):
+        if src[i] in ('distance', 'vector') and gdom[i] is None:
+            continue            # left to construct_mesh (same meaning)
+        if src[i] != 'survey':
+            if not close(gdom[i], base[i]):
+                raise V(f"domain:{DIRS[i]}:{src[i]}",
+                        f"domain[{DIRS[i]}] = {gdom[i]!r}, expected "
+                        f"{base[i]} from the given {src[i]}")
+    # x / y from the survey: + 10 %, then "not smaller than a third of the
+    # other direction, otherwise expanded symmetrically" (whole metres:
+    # measured; hence 0.5 m slack per side)
+    small = 1e-6*max(dscale, 1.0)
+    for i, o in ((0, 1), (1, 0)):
+        if src[i] != 'survey':
+            continue
+        if max(diff[i], diff[o]) < small:
+            continue            # a single point: ratio undefined
+        ratio = diff[o]/max(diff[i], 1e-300)
+        # y takes precedence when both are from the survey (only one of the
+        # two can be the smaller one anyway)
+        if abs(ratio-3) < 1e-6:
+            continue
+        exp = base[i]
+        slack = 0.0
+        if ratio > 3:
+            e = (diff[o]/3.0-diff[i])/2.0
+            exp, slack = [base[i][0]-e, base[i][1]+e], 0.5
+        if not close(gdom[i], exp, slack):
+            raise V(f"domain:{DIRS[i]}:survey:{'expanded' if slack else 'plain'}",
+                    f"domain[{DIRS[i]}] = {gdom[i]!r}, expected {exp} (+- "
+                    f"{slack}): survey extent {pts[:, i].min()}.."
+                    f"{pts[:, i].max()} plus 10 %, other horizontal "
+                    f"dimension {diff[o]}")
+        rec.cls(f"{DIRS[i]}:survey:{'expanded' if slack else 'plain'}")
+        if not slack and gdom[i] is not None and \
+                abs((gdom[i][1]-gdom[i][0])-diff[i]) > tol:
+            raise V(f"domain:{DIRS[i]}:survey:plain", "extent changed")
+    # z from the survey: extent (the public text) or extent + 10 % (the
+    # code) - both readings accepted - at least half the larger horizontal
+    # dimension or 5 km, expanded 9 parts down, 1 part up
+    if src[2] == 'survey' and max(diff[0], diff[1]) >= small:
+        a0, a1 = float(pts[:, 2].min()), float(pts[:, 2].max())
+        hd = min(10000.0, max(diff[0], diff[1]))
+        ok, tried = False, []
+        for b in ([a0, a1], [a0-(a1-a0)/10, a1+(a1-a0)/10]):
+            zd = b[1]-b[0]
+            if abs(hd-2*zd) < 1e-6*hd:
+                ok = True
+                break
+            if hd/max(zd, 1e-300) > 2:
+                e = (hd/2.0-zd)/10.0
+                exp = [b[0]-9*e, b[1]+e]
+                good = gdom[2] is not None and np.shape(gdom[2]) == (2,) \
+                    and abs(float(gdom[2][1])-exp[1]) <= 0.5+tol and \
+                    abs((b[0]-float(gdom[2][0])) -
+                        9*(float(gdom[2][1])-b[1])) <= 1e-6*max(hd, 1.0)+9*tol
+                lab = 'expanded'
+            else:
+                exp = b
+                good = close(gdom[2], exp)
+                lab = 'plain'
+            tried.append(exp)
+            if good:
+                ok = True
+                rec.cls(f"z:survey:{lab}")
+                break
+        if not ok:
+            raise V("domain:z:survey",
+                    f"domain[z] = {gdom[2]!r}; expected one of {tried} "
+                    f"(source/receiver depths {a0}..{a1}, horizontal "
+                    f"dimension {max(diff[0], diff[1])})")
+    rec.cls('outcome=options')
+    rec.nt(['ego', sorted(user0), spec['prob']['seed'],
+            spec['seed'], spec['dom'], spec['dist'], spec['vec']])
+    rec.note({'given': sorted(user0), 'domain_from': src,
+              'domain': [None if d is None else [float(d[0]), float(d[1])]
+                         for d in gdom]})
+
+
+SUBS = {'oaw': case_oaw, 'cm': case_cm, 'gmc': case_gmc, 'ego': case_ego}
 FUZZ = {'oaw': (OAW_SPEC, case_oaw), 'cm': (CM_SPEC, case_cm)}
 
 
 def run(ctx):
     ctx.regression(SUBS)
     _FEAS['designed'] = _FEAS['mesh'] = 0
+    for k in _SEA:
+        _SEA[k] = 0
+    ctx.enumerate('gmc', gmc_specs(), case_gmc, exhaustive=False)
     ctx.explore('oaw', OAW_SPEC, case_oaw, ctx.n(900, 3600))
     ctx.explore('cm', CM_SPEC, case_cm, ctx.n(300, 1200))
+    ctx.explore('ego', EGO_SPEC, case_ego, ctx.n(250, 1000))
     # coverage-guided campaigns over the same strategies / oracles
     ctx.fuzz('oaw', ctx.n(250, 4000))
     ctx.fuzz('cm', ctx.n(80, 1200))
     ctx.notes['designed_feasible'] = dict(_FEAS)
+    ctx.notes['sea_surface'] = dict(_SEA)
+    if _SEA['cases'] >= 60 and _SEA['node'] < 0.3*_SEA['cases']:
+        raise HarnessError(
+            f"the sea surface became a node in only {_SEA['node']} of "
+            f"{_SEA['cases']} meshes with a sea surface: the clause is "
+            "discharged almost only by the warning")
     if _FEAS['designed'] >= 40 and _FEAS['mesh'] < 0.6*_FEAS['designed']:
         raise HarnessError(
             f"only {_FEAS['mesh']} of {_FEAS['designed']} inputs designed to "
